@@ -161,6 +161,16 @@ CHECKS = {
         note='"Copy with overrides = fresh construction" is decided by the oracle (construct afresh and compare), not by a theorem. Creating new attribute names on UnknownMetaMessage is outside.',
         technique='Lean 4 proof (heap frame property by case analysis of the step function) over a hand model; differential correspondence on heap histories',
         design='5 C15'),
+    'C14': dict(
+        text='Character-level model of str.split / split("=",1) / split(",") / int() (sign, underscores) and of str2msg + the checked '
+             'constructor; theorems: parse_string fails with ValueError and nothing else on EVERY text; parse_string_stream is never '
+             'aborted and reports exactly skipped / message / error-with-1-based-line-number per line; from_dict(dict()) = id on every valid '
+             'message; int(str(n)) = n for all integers. str/from_str bytes and outcomes are tied by correspondence (valid and malformed '
+             'texts, streams); str, dict and every repr/eval round trip (messages, meta, tracks of length 0/1/2+, files) are decided by the '
+             'oracle on the implementation.',
+        note='PARTIAL: from_str(str(m)) = m is not yet a theorem (oracle + correspondence only); eval, the full int()/float() grammar and float printing are CPython\'s.',
+        technique='Lean 4 proof (shape invariant of parsed keyword values through the checked constructor; induction over lines) over a hand model; differential correspondence + eval-based oracle',
+        design='5 C14'),
 }
 
 PENDING = ['C02', 'C03', 'C04', 'C05', 'C06', 'C07', 'C08', 'C09', 'C10', 'C11', 'C12', 'C13', 'C14', 'C15',
